@@ -12,6 +12,9 @@ GO_E2E = dict(module="core", pkg="internal/integration_tests", pkgname="integrat
               files={"zz_verif_c06e_test.go": "c06/c06_e2e_test.go"}, run="TestVerifC06E2E")
 GO_CLI = dict(module="core", pkg="client", pkgname="client",
               files={"zz_verif_c06c_test.go": "c06/c06_client_test.go"}, run="TestVerifC06Client")
+# level (c): the same end-to-end set-up with the REAL request hook (extras/sniff Sniffer); core cannot import extras, so it lives in extras/sniff
+GO_SNF = dict(module="extras", pkg="sniff", pkgname="sniff",
+              files={"zz_verif_c06s_test.go": "c06/c06_sniff_test.go"}, run="TestVerifC06Sniff")
 PARAMS_NAME = "ParamsC06"
 # Strings.String first (string literals of the end-to-end cases), then everything else so that List's names win again
 HEADER = ("From Coq Require Import Strings.String.\nFrom Hy Require Import lib.Harness model.C06_Relay corr.C06_Corr.\n"
@@ -50,6 +53,18 @@ RULE = ("seeded generator of relay histories: (a) copyTwoWayEx/copyTwoWay of the
         "x fast open: after the veto new Client.TCP calls on that connection must fail (connection closed) within 10 s and, with an EventLogger, "
         "the server must report Disconnect within 5 s; after a relay that ended WITHOUT a veto the target connection is closed within 5 s and a fresh "
         "request on the same connection is served (the connection is closed iff vetoed); these ends are also compared with the tail of model/C06_Events.v. "
+        "(c) SNIFFED RELAYS (kind snf, package extras/sniff: core cannot import extras, so the mock hook of level (b) is replaced there by the REAL hook): "
+        "a real server whose RequestHook hands every hooked stream to a real *Sniffer (Timeout, TCPPorts, RewriteDomain per case), a real client over loopback QUIC "
+        "(fast open on / off, TrafficLogger on / off), a recording target. The client's first flight looks like a TLS record (0x16 / 0x17, versions 3.0 .. 3.9; a real "
+        "ClientHello with / without server name, a lying length field, aperiodic bodies of 1 .. 5000 (thorough: 65535) bytes), an HTTP request (with / without Host, three letters "
+        "followed by garbage) or neither, and is CUT relative to the record: fewer than the 3 probe bytes (0, 1, 2), inside the record header (3, 4), header complete and "
+        "0 / 1 / 2 / N-1 / a random number of body bytes arrived, inside the request line / the header block / the final CRLF; at the cut the client either PAUSES until the "
+        "server has dialled the target (i.e. until the sniffer's read deadline - 500 ms in the quick tier - has fired), then writes the rest, or the STREAM ENDS there (FIN in the "
+        "middle of the record), or nothing happens; the bytes in front of the cut arrive in one Write, as probe / rest of header / body, byte-wise or at random cuts; directed "
+        "matrix {0, 1, 2, N-1 body bytes} x {deadline, FIN} x fast open (16 + 10 + 8 random of ~50 per quick run), plus complete first flights (address rewritten or not), the port "
+        "filter / a domain address keeping the sniffer away, RewriteDomain letting it in. Judged when the server has closed the target after the client's EOF: the target holds "
+        "EXACTLY what the client wrote (a prefix at every moment), dialled once at the address the hook left, StreamStats.Tx = bytes delivered, LogTraffic tx total = delivered - putback, "
+        "the application read a prefix of what the target sent. "
         "Distinct = distinct JSON case.")
 ASSUMPTIONS = [
     "sinks obey the io.Writer contract (n < len(p) only with a non-nil error): copyBufferLog ignores the count (hypothesis wok of the prefix/accounting theorems; quic-go streams and net.Conn do)",
@@ -67,6 +82,9 @@ ASSUMPTIONS = [
     "C06_hooked_target_prefix assumes the target accepted the whole putback (handleTCPRequest ignores the result of that Write); what a hook does with the stream "
     "(how much it reads, whether what it returns as putback is what it read) is the environment's choice; TraceStream calls are not modelled; "
     "the EventLogger is modelled for the tail of handleTCPRequest only (model/C06_Events.v: the TCPError call between the copy and the teardown)",
+    "sniffed connections (C06_sniffed_*): the sniffer is the model of C17 (model/C17_Sniff.v sniff_tcp; bufio + http.ReadRequest and utls are oracles, the consumer's first read asks "
+    "for at least 3 bytes) and its transparency theorem is C17's; the theorems assume the Up loop reads what the sniffer left on the stream (QUIC ordering; a fired read deadline "
+    "is cleared by the sniffer's deferred SetReadDeadline(time.Time{})) and that the target accepted the whole putback",
 ]
 TRUSTED = ["modelled rather than verified: core/server/copy.go, the hook-less path of handleTCPRequest (server.go:271-343), client.go TCP()/tcpConn.Read "
            "(hand transcription in coq/model/C06_Relay.v); level (a) transcribes the three teardown lines of server.go:338-342 (handleTCPRequest needs a real *quic.Stream / *quic.Conn, "
@@ -83,7 +101,12 @@ TRUSTED = ["modelled rather than verified: core/server/copy.go, the hook-less pa
            "cross-relay runs: buffer identity = address of the slice handed to Read / Write, interned by the harness; sync.Pool with GOMAXPROCS(1); "
            "model/C06_Pool.v abstracts sync.Pool as a set of free buffers (a Get may also return a new one) and places the deferred Put between the "
            "loop's decision to return and its channel send; its tie to the code is the ownership check of the replay, not a replay of Get/Put (not visible at the boundary)",
-           "client Close (model/C06_Close.v): quic-go's FIN vs RESET_STREAM semantics are taken as given; tied to the code only through the level (b) one-way upload verdict"]
+           "client Close (model/C06_Close.v): quic-go's FIN vs RESET_STREAM semantics are taken as given; tied to the code only through the level (b) one-way upload verdict",
+           "level (c) (sniffed relays): the hook installed in the server is a delegating wrapper that picks the case's own real *Sniffer, calls its Check / TCP on the server's real stream "
+           "and keeps a copy of what came back; how many bytes the sniffer took off the stream is inferred (written by the client - forwarded behind the putback); when the sniffer's deadline fires relative to the "
+           "arrival of the client's bytes is not controlled (the cut is where the client pauses; under load the sniffer may see less - the verdict does not depend on it); "
+           "corr case CSniff: the sniffer's part is evaluated with model/C17_Sniff.v on exactly the bytes it was observed to take (TLS-looking / unrecognised / short streams only: HTTP needs bufio's read pattern), "
+           "the server's part is the run of model/C06_Hook.v synthesised from the target's Write sizes"]
 PER_SHARD = 40
 EXTRA_TARGETS = ["corr/C06_Corr.vo"]
 FP_VETO = "veto-swallowed-other-direction-returned-first"
@@ -437,6 +460,215 @@ def e2e_cases(rng, tier):
     return cs
 
 
+# ------------------------------------------------------------------ level (c): sniffed relays (kind "snf")
+
+def _u16(n):
+    return bytes([n >> 8, n & 255])
+
+
+def snf_client_hello(rng, sni, pad=0):
+    """a TLS 1.3 ClientHello handshake message (without the record header)"""
+    exts = b""
+    if sni:
+        name = sni.encode("ascii")
+        sn = b"\x00" + _u16(len(name)) + name
+        lst = _u16(len(sn)) + sn
+        exts += _u16(0) + _u16(len(lst)) + lst
+    exts += _u16(10) + _u16(4) + _u16(2) + _u16(0x1d)
+    exts += _u16(13) + _u16(4) + _u16(2) + _u16(0x0403)
+    exts += _u16(43) + _u16(3) + b"\x02\x03\x04"
+    if pad:
+        exts += _u16(21) + _u16(pad) + bytes(pad)
+    body = (b"\x03\x03" + bytes(rng.randrange(256) for _ in range(32)) + b"\x20" + bytes(rng.randrange(256) for _ in range(32))
+            + _u16(4) + b"\x13\x01\x13\x02" + b"\x01\x00" + _u16(len(exts)) + exts)
+    return b"\x01" + len(body).to_bytes(3, "big") + body
+
+
+def snf_bytes(parts):
+    out = b""
+    for q in parts:
+        out += bytes.fromhex(q[1]) if q[0] == "l" else common.gen_data(q[1], q[2], q[3])
+    return out
+
+
+def _pieces(rng, head, fill):
+    """stream pieces: literal head bytes, then `fill` aperiodic bytes"""
+    ps = []
+    if head:
+        ps.append(["l", head.hex()])
+    if fill > 0:
+        ps.append(["gd", rng.randrange(1, 256), rng.randrange(256), fill])
+    return ps
+
+
+SNF_TLS_HEADS = [b"\x16\x03\x01", b"\x16\x03\x03", b"\x17\x03\x03", b"\x16\x03\x00", b"\x16\x03\x09"]
+
+
+def gen_snf(rng, tier):
+    """Relays whose request hook is the real Sniffer: the client's first flight looks like TLS / HTTP / neither and is CUT at a
+    chosen position relative to the record header / record body / header block; there the client pauses until the sniffer has
+    given up (hold: its read deadline fired), or the stream ends (FIN), or nothing happens (no pause)."""
+    cs = []
+    serial = [0]
+    quick = tier == "quick"
+    tmo = 500 if quick else None
+
+    def mk(shape, parts, cuts, hold, want="", **kw):
+        serial[0] += 1
+        n = serial[0]
+        port = kw.pop("port", rng.choice([443, 443, 80, 8443, 5228]))
+        c = {"k": "snf", "shape": shape, "logger": rng.random() < 0.6, "fastopen": rng.random() < 0.5,
+             "timeout_ms": (tmo or rng.choice([200, 500, 1000])) if hold else 0, "ports": "", "rw_domain": False,
+             "addr": "10.66.%d.%d:%d" % (n // 250, n % 250 + 1, port), "want_addr": ("%s:%d" % (want, port)) if want else "",
+             "sentp": parts, "cuts": cuts, "gap_ms": rng.choice([0, 10, 25]) if len(cuts) > 1 else 0, "hold": hold,
+             "chunk": rng.choice([0, 0, 700, 1199, 5000]), "down": rng.choice([0, 1, 3000])}
+        c.update(kw)
+        c["sn"] = len(snf_bytes(parts))
+        cs.append(c)
+        return c
+
+    def arrival(rng, k, hdr):
+        """how the first k bytes reach the server: at once, probe / rest of the header / body as separate writes, or byte-wise"""
+        r = rng.random()
+        if r < 0.4 or k <= 1:
+            cuts = [k]
+        elif r < 0.75:
+            cuts = sorted(set(x for x in (3, hdr, k) if 0 < x <= k))
+        elif r < 0.9 and k <= 12:
+            cuts = list(range(1, k + 1))
+        else:
+            cuts = sorted(set([rng.randrange(1, k + 1) for _ in range(2)] + [k]))
+        return cuts
+
+    def tls_part(N, arr, end, head=None, fo=None, tail=None):
+        """a record header announcing N body bytes of which `arr` have arrived when the sniffer stops waiting (end = "timeout")
+        or when the stream ends (end = "fin")"""
+        head = head or rng.choice(SNF_TLS_HEADS)
+        hdr = head + _u16(N)
+        hello = snf_client_hello(rng, "snf-part.example", pad=max(0, N - 150)) if head[0] == 0x16 and rng.random() < 0.5 else b""
+        k = 5 + arr
+        if end == "fin":
+            body = hello[:arr]
+            parts = _pieces(rng, hdr + body, arr - len(body))
+            c = mk("tls-part:fin", parts, arrival(rng, k, 5), False, want="snf-part.example", down=0, N=N, arr=arr)
+        else:
+            tail = rng.choice([0, 0, 1, 700, 3000]) if tail is None else tail
+            body = hello[:N]
+            parts = _pieces(rng, hdr + body, N - len(body) + tail)
+            c = mk("tls-part:timeout", parts, arrival(rng, k, 5), True, want="snf-part.example", N=N, arr=arr)
+        if fo is not None:
+            c["fastopen"] = fo
+        return c
+
+    # directed matrix: header complete + 0, 1, 2, N-1 body bytes arrived, at the timeout / at FIN, x fast open
+    for fo in (False, True):
+        N = rng.choice([64, 300, 517, 1400])
+        for arr in (0, 1, 2, N - 1):
+            tls_part(N, arr, "timeout", fo=fo)
+            tls_part(N, arr, "fin", fo=fo)
+    # header incomplete (3, 4 bytes), fewer than the 3 probe bytes (0, 1, 2), at the timeout / at FIN
+    for k in (0, 1, 2, 3, 4):
+        head = rng.choice(SNF_TLS_HEADS)
+        full = head + _u16(rng.choice([5, 300])) + bytes(rng.randrange(256) for _ in range(40))
+        mk("tls-hdr-part:timeout" if k >= 3 else "short:timeout", [["l", full.hex()]], [k] if k else [], True, N=0, arr=k - 5)
+        mk("tls-hdr-part:fin" if k >= 3 else "short:fin", [["l", full[:k].hex()]] if k else [], [k] if k else [], False, down=0, N=0, arr=k - 5)
+
+    def tls_full(kind):
+        name = "snf-%d.example" % rng.randrange(10**6)
+        if kind == "sni":
+            hs = snf_client_hello(rng, name, pad=rng.choice([0, 0, 200, 1300]))
+            want = name
+        elif kind == "nosni":
+            hs = snf_client_hello(rng, None, pad=rng.choice([0, 200]))
+            want = ""
+        else:
+            hs = None
+            want = ""
+        if kind == "lying":        # the length field announces less than the handshake message is long: the rest is relayed
+            hs = snf_client_hello(rng, name, pad=100)
+            N = len(hs) - rng.choice([1, 2, 50])
+            want = name       # (if the parser accepted the truncated message)
+        elif hs is not None:
+            N = len(hs)
+        else:
+            N = rng.choice([1, 5, 64, 300, 1400, 5000] + ([] if quick else [16384, 40000]))
+        head = b"\x16\x03\x01" if hs is not None else rng.choice(SNF_TLS_HEADS)
+        tail = rng.choice([0, 1, 700, 5000])
+        if hs is not None:
+            parts = _pieces(rng, head + _u16(N) + hs, tail)
+            tot = 5 + len(hs)
+        else:
+            parts = _pieces(rng, head + _u16(N), N + tail)
+            tot = 5 + N
+        r = rng.random()
+        cuts = [] if r < 0.4 else ([3, 5, 5 + N] if r < 0.7 else sorted(set(rng.randrange(1, tot + 1) for _ in range(3))))
+        return mk("tls-full:" + kind, parts, cuts, False, want=want, N=N, arr=N)
+
+    def http(kind, end="none"):
+        name = "snf-%d.example" % rng.randrange(10**6)
+        hostv = name + rng.choice(["", ":8080"])
+        lines = ["%s /%s HTTP/1.1" % (rng.choice(["GET", "POST", "HEAD", "OPTIONS"]), "x" * rng.choice([0, 5, 300]))]
+        hs = ["User-Agent: verif/%d" % rng.randrange(1000), "Accept: */*"]
+        if kind != "nohost":
+            hs.insert(rng.randrange(len(hs) + 1), "Host: " + hostv)
+        req = ("\r\n".join(lines + hs) + "\r\n\r\n").encode("ascii")
+        tail = rng.choice([0, 5, 700, 5000])
+        if kind == "part":
+            k = rng.choice([3, 4, len(lines[0]), len(lines[0]) + 2, len(req) - 4, len(req) - 2, len(req) - 1, rng.randrange(3, len(req))])
+            if end == "fin":
+                return mk("http-part:fin", [["l", req[:k].hex()]], arrival(rng, k, 3), False, down=0, N=len(req), arr=k)
+            return mk("http-part:timeout", _pieces(rng, req, tail), arrival(rng, k, 3), True, N=len(req), arr=k)
+        if kind == "garbage":     # three letters, then nothing a request parser accepts (an SSH banner, say)
+            req = rng.choice([b"SSH-2.0-OpenSSH_9.6\r\n", b"abc\x00\x01\x02\xff" + bytes(20) + b"\n", b"GET\r\n\r\n"])
+            return mk("http-garbage", _pieces(rng, req, tail), [], False, N=len(req), arr=len(req))
+        r = rng.random()
+        cuts = [] if r < 0.5 else sorted(set(rng.randrange(1, len(req) + 1) for _ in range(2)))
+        return mk("http-full:" + kind, _pieces(rng, req, tail), cuts, False, want=name if kind != "nohost" else "", N=len(req), arr=len(req))
+
+    def unrec():
+        head = rng.choice([b"\x00\x01\x02", b"\x15\x03\x01", b"\x16\x03\x0a", b"\x16\x02\x01", b"\x18\x03\x03", b"G\x00T", b"\xff\xff\xff"])
+        n = rng.choice([0, 1, 2, 100, 3000])
+        return mk("unrecognised", _pieces(rng, head, n), rng.choice([[], [3], [1, 2, 3]]), False, N=0, arr=0)
+
+    for kind in ("sni", "nosni", "random", "lying"):
+        tls_full(kind)
+    for kind in ("host", "nohost", "garbage"):
+        http(kind)
+    for end in ("timeout", "timeout", "fin"):
+        http("part", end)
+    unrec()
+    # configuration: the port filter / a domain address keep the sniffer away (no hook), RewriteDomain lets it in
+    c = tls_part(300, 2, "fin")
+    c.update({"ports": "1-79,81-442,444-5227", "shape": "unhooked:" + c["shape"]})
+    c = tls_full("sni")
+    c.update({"ports": "1-79,81-442,444-5227", "shape": "unhooked:" + c["shape"]})
+    c = tls_part(rng.choice([64, 300]), rng.choice([0, 1, 2]), "fin")
+    c.update({"ports": "80,443,5228,8000-9000"})
+    c = tls_full("sni")
+    c.update({"addr": "dom-%d.example:%s" % (serial[0], c["addr"].split(":")[1]), "rw_domain": True})
+    c = http("host")
+    c.update({"addr": "dom-%d.example:%s" % (serial[0], c["addr"].split(":")[1]), "rw_domain": False, "shape": "unhooked:" + c["shape"]})
+    # random ones
+    for _ in range(8 if quick else 120):
+        r = rng.random()
+        if r < 0.45:
+            N = rng.choice([1, 2, 3, 5, 64, 300, 517, 1400, 5000] + ([] if quick else [16384, 65535]))
+            arr = rng.choice([0, 1, 2, N - 1, N - 2, rng.randrange(0, N)])
+            tls_part(N, max(0, min(arr, N - 1)), rng.choice(["timeout", "fin", "fin"]))
+        elif r < 0.6:
+            tls_full(rng.choice(["sni", "nosni", "random", "lying"]))
+        elif r < 0.8:
+            http(rng.choice(["host", "nohost", "garbage", "part", "part"]), rng.choice(["timeout", "fin"]))
+        else:
+            unrec()
+    return cs
+
+
+def ctx_seed_of(rng):
+    """seed of the level (c) generator: one draw from the main generator AFTER every other class has been generated"""
+    return rng.randrange(1 << 30)
+
+
 def gen(rng, tier):
     scale = 1 if tier == "quick" else 10
     cases = fixed_cases() + e2e_cases(rng, tier)
@@ -454,6 +686,8 @@ def gen(rng, tier):
         cases.append(gen_xdirected(rng))
     for _ in range(10 * scale):
         cases.append(gen_xrandom(rng))
+    # level (c) last and from its own stream of random numbers: the histories of the other classes stay what they were
+    cases += gen_snf(random.Random(ctx_seed_of(rng)), tier)
     return cases
 
 
@@ -636,7 +870,43 @@ def e2e_to_coq(c, o):
         tr, o["tx"], o["rx"], o["sink_up"][0], o["sink_up"][1], o["sink_down"][0], o["sink_down"][1], cli)
 
 
+def snf_sent_term(parts):
+    ts = [common.coq_bytes(bytes.fromhex(q[1])) if q[0] == "l" else "(gen_data %d %d %d)" % (q[1], q[2], q[3]) for q in parts]
+    return "(" + " ++ ".join(ts) + ")" if ts else "[]"
+
+
+def snf_to_coq(c, o):
+    """level (c): the sniffer's part is compared with model/C17_Sniff.v on the bytes it was observed to take off the stream
+    (TLS-looking, unrecognised and short streams: no library oracle is consulted except the server name, which is answered with
+    the name the hook left; HTTP-looking streams need the read pattern of bufio + http.ReadRequest, not visible end to end), the
+    server's part with the run of model/C06_Hook.v that produces the target's Write calls"""
+    if o.get("skip") or o.get("panic") or "writes" not in o or not o.get("torn") or "pbn" not in o or o.get("hook_err"):
+        return None
+    if c["logger"] and "stx" not in o:
+        return None
+    if c["shape"].split(":")[0] == "unhooked":
+        if o.get("hooked"):
+            return None
+    elif c["shape"].startswith("http") or not o.get("hooked"):
+        return None
+    b = lambda x: "true" if x else "false"
+    consumed = c["sn"] - (o["got"] - o["pbn"])
+    if consumed < 0 or consumed > c["sn"]:
+        consumed = c["sn"]
+    e = 1 if c["shape"].endswith(":fin") else (2 if c["hold"] else 0)
+    sni = "None"
+    haddr = o.get("hook_addr") or c["addr"]
+    if o.get("rewritten"):
+        sni = "(Some %s)" % common.coq_bytes(haddr.rsplit(":", 1)[0].encode("ascii"))
+    nl = lambda l: "[" + ";".join(str(int(x)) for x in l) + "]"
+    return "CSniff %s %s %s %d %d %s %s %s %d %s %s %d %d" % (
+        b(c["logger"]), b(o.get("hooked")), snf_sent_term(c["sentp"]), consumed, e, sni, cstr(c["addr"].encode()), cstr(haddr.encode()),
+        o["pbn"], nl(o.get("writes") or []), nl(o.get("uplogs") or []), o.get("stx", 0), o["got"])
+
+
 def to_coq(c, o):
+    if c["k"] == "snf":
+        return snf_to_coq(c, o)
     if c["k"] == "e2e":
         # level (b) is judged by the harness verdict; the hooked requests that end without a relay (hook abort, failed dial)
         # are also compared with the run of model/C06_Hook.v: the application reads no byte and its Reads end with EOF
@@ -671,6 +941,15 @@ def to_coq(c, o):
 
 
 def klass(c, o):
+    if c["k"] == "snf":
+        if o.get("skip"):
+            return "snf:%s:SKIPPED" % c["shape"]
+        seen = ""
+        if o.get("hooked"):
+            # how much of the first flight the sniffer had when it returned: all the client had written in front of its pause, or less
+            k = c["cuts"][-1] if c["cuts"] else (0 if c["hold"] else c["sn"])
+            seen = ":putback=%s" % ("0" if not o.get("pbn") else ("cut" if (c["hold"] or c["shape"].endswith(":fin")) and o["pbn"] == min(k, c["sn"]) else "some"))
+        return "snf:%s:fo=%d:logger=%d%s%s" % (c["shape"], c["fastopen"], c["logger"], seen, ":rewritten" if o.get("rewritten") else "")
     if c["k"] == "e2e":
         kind = "dial-error" if c["dial_err"] else ("upload-noread" if c.get("no_read") else ("veto" if o.get("vetoed") else "data"))
         hk = c.get("hook")
@@ -704,6 +983,8 @@ def klass(c, o):
 
 
 def nontrivial(c, o):
+    if c["k"] == "snf":
+        return not o.get("skip") and bool(o.get("hooked")) and o.get("got", 0) > 0
     if c["k"] == "e2e":
         return not o.get("skip")
     f = o.get("facts") or {}
@@ -727,7 +1008,7 @@ def search(ctx, disagreeing):
     for s in range(3):
         rng = random.Random(ctx.seed * 1000 + s + 17)
         cases = gen(rng, "quick")
-        cases = [c for c in cases if c["k"] != "e2e"]
+        cases = [c for c in cases if c["k"] not in ("e2e", "snf")]
         ok, outs, _, log = common.run_go_cases(ctx, GO, cases, tag="search%d" % s)
         for c, o in zip(cases, outs):
             if o.get("ok") is False and fingerprint(c, o) is None:
@@ -746,9 +1027,21 @@ def run(ctx):
     def both(ctx_, gospec, cases, tag="main", timeout=900, race=False):
         if gospec is not GO:
             return orig(ctx_, gospec, cases, tag=tag, timeout=timeout, race=race)
-        ia = [i for i, c in enumerate(cases) if c.get("k") != "e2e"]
+        ia = [i for i, c in enumerate(cases) if c.get("k") not in ("e2e", "snf")]
         ib = [i for i, c in enumerate(cases) if c.get("k") == "e2e"]
+        ic = [i for i, c in enumerate(cases) if c.get("k") == "snf"]
         race = race or ctx_.tier == "thorough"
+        # level (c) (package extras/sniff: the real Sniffer as the request hook) runs next to the other packages
+        snf_res = {}
+
+        def run_snf():
+            snf_res["r"] = orig(ctx_, GO_SNF, [cases[i] for i in ic], tag=tag + "_snf", timeout=timeout, race=race)
+
+        th_snf = None
+        if ic:
+            import threading
+            th_snf = threading.Thread(target=run_snf)
+            th_snf.start()
         ok1, o1, params, log1 = orig(ctx_, GO, [cases[i] for i in ia], tag=tag, timeout=timeout, race=race)
         # the client half of the end-to-end class (package client) is served what the server half wrote; it runs while level (b) does
         cli_idx, cli_cases = [], []
@@ -783,6 +1076,16 @@ def run(ctx):
             else:
                 ok1 = False
                 log1 += "\nclient half (core/client) failed:\n" + log3[-3000:]
+        ok4, o4, log4 = True, [], ""
+        if th_snf:
+            th_snf.join()
+            ok4, o4, _, log4 = snf_res.get("r", (False, [], None, "level (c) did not run"))
+            if len(o4) != len(ic):
+                # level (c) did not finish (reported as a broken tie through ok4): keep what the other levels found
+                ok4 = False
+                o4 = list(o4) + [{"k": "snf", "ok": True, "why": "", "skip": "sniffed-relay harness did not finish"}] * (len(ic) - len(o4))
+            if not ok4:
+                log1 += "\nlevel (c) (extras/sniff) failed:\n" + log4[-3000:]
         outs = [None] * len(cases)
         if len(o1) == len(ia):
             if len(o2) != len(ib):
@@ -793,13 +1096,19 @@ def run(ctx):
                 outs[i] = o
             for i, o in zip(ib, o2):
                 outs[i] = o
+            for i, o in zip(ic, o4):
+                outs[i] = o
         else:
             outs = []
         skipped = sum(1 for o in o2 if o.get("skip"))
         if skipped:
             ctx_.say("level (b): %d of %d end-to-end cases skipped for infrastructure reasons: %s" % (
                 skipped, len(o2), next(o.get("skip") for o in o2 if o.get("skip"))))
-        return ok1 and ok2, outs, params, log1 + log2
+        skipped = sum(1 for o in o4 if o.get("skip"))
+        if skipped:
+            ctx_.say("level (c): %d of %d sniffed relays skipped for infrastructure reasons: %s" % (
+                skipped, len(o4), next(o.get("skip") for o in o4 if o.get("skip"))))
+        return ok1 and ok2 and ok4, outs, params, log1 + log2
 
     common.run_go_cases = both
     try:
@@ -814,7 +1123,7 @@ def replay(ctx, path):
     if not c:
         print("replay file names a broken obligation/correspondence, no concrete input:", r["what"])
         return 1
-    ok, outs, _, log = common.run_go_cases(ctx, GO_E2E if c.get("k") == "e2e" else GO, [c], tag="replay")
+    ok, outs, _, log = common.run_go_cases(ctx, {"e2e": GO_E2E, "snf": GO_SNF}.get(c.get("k"), GO), [c], tag="replay")
     print(json.dumps(outs, indent=1))
     good = bool(outs and outs[0].get("ok"))
     cc = (r["replay"].get("impl") or {}).get("cli_case")
@@ -841,7 +1150,10 @@ LEVEL_TEXT = ("Machine-checked Coq theorems over a labelled transition system tr
               "isolation between relays: in the world of all copy loops over a memory of pooled buffers (Read stores into the loop's buffer, Write hands out what the buffer "
               "holds then) a buffer has at most one running owner, so every loop's behaviour is a run of the one-loop LTS and its sink holds a prefix of ITS source, "
               "which fails as soon as a buffer may return to the pool before its loop has finished; the client's Close ends the send side with FIN whatever the "
-              "connection's Established flag (so a fast-open upload closed before any Read is delivered whole), a reset-if-unestablished Close does not. The model is tied to /repo on every run by the regenerated buffer size "
+              "connection's Established flag (so a fast-open upload closed before any Read is delivered whole), a reset-if-unestablished Close does not; "
+              "a SNIFFED connection (the hook of the run is the sniffer of extras/sniff, composed from C17's model): for every script of the client's stream - every chunking, EOF / reset / a fired read deadline "
+              "anywhere in the probe bytes, the TLS record header, the record body, an HTTP header block - the target's stream is a prefix of the client's stream and all that was taken off the stream once Up has returned nil, "
+              "and a sniffer whose early return hands back fewer bytes than it consumed leaves a hole (refuted variant). The model is tied to /repo on every run by the regenerated buffer size "
               "and by replaying recorded boundary logs of the real code against the LTS in the kernel (vm_compute).")
 LEVEL_NOTE = ("Trusted: Coq kernel + vm_compute; hand-written model (tie is sampled: recorded boundary logs are replayed, not all schedules); python/Go glue. "
               "No axioms. The clause 'a veto closes that user's connection' is proved only when the vetoed loop is the first to report "
